@@ -157,15 +157,16 @@ package codec
 //@   ensures empty: len(b) == 0 ==> result2 != nil
 //@   ensures badtag: len(b) > 0 && b[0] < 8 ==> result2 != nil
 //@   ensures short: len(b) > 0 && b[0] > 247 && len(b) < 1 + (mathint(b[0]) - 247) ==> result2 != nil
-//@   ensures accepted: result2 == nil ==> len(b) > 0 && b[0] >= 8 && (b[0] <= 247 ==> mathint(result1) == mathint(b[0]) - 8 && result0 == b[1:]) &&
-//@       (b[0] == 248 ==> len(b) >= 2 && result1 == be1(b, 1) && result0 == b[2:]) &&
-//@       (b[0] == 249 ==> len(b) >= 3 && result1 == be2(b, 1) && result0 == b[3:]) &&
-//@       (b[0] == 250 ==> len(b) >= 4 && result1 == be3(b, 1) && result0 == b[4:]) &&
-//@       (b[0] == 251 ==> len(b) >= 5 && result1 == be4(b, 1) && result0 == b[5:]) &&
-//@       (b[0] == 252 ==> len(b) >= 6 && result1 == be5(b, 1) && result0 == b[6:]) &&
-//@       (b[0] == 253 ==> len(b) >= 7 && result1 == be6(b, 1) && result0 == b[7:]) &&
-//@       (b[0] == 254 ==> len(b) >= 8 && result1 == be7(b, 1) && result0 == b[8:]) &&
-//@       (b[0] == 255 ==> len(b) >= 9 && result1 == be8(b, 1) && result0 == b[9:])
+//@   ensures acc_tag: result2 == nil ==> len(b) > 0 && b[0] >= 8
+//@   ensures acc_1: result2 == nil && b[0] <= 247 ==> mathint(result1) == mathint(b[0]) - 8 && result0 == b[1:]
+//@   ensures acc_p1: result2 == nil && b[0] == 248 ==> len(b) >= 2 && result1 == be1(b, 1) && result0 == b[2:]
+//@   ensures acc_p2: result2 == nil && b[0] == 249 ==> len(b) >= 3 && result1 == be2(b, 1) && result0 == b[3:]
+//@   ensures acc_p3: result2 == nil && b[0] == 250 ==> len(b) >= 4 && result1 == be3(b, 1) && result0 == b[4:]
+//@   ensures acc_p4: result2 == nil && b[0] == 251 ==> len(b) >= 5 && result1 == be4(b, 1) && result0 == b[5:]
+//@   ensures acc_p5: result2 == nil && b[0] == 252 ==> len(b) >= 6 && result1 == be5(b, 1) && result0 == b[6:]
+//@   ensures acc_p6: result2 == nil && b[0] == 253 ==> len(b) >= 7 && result1 == be6(b, 1) && result0 == b[7:]
+//@   ensures acc_p7: result2 == nil && b[0] == 254 ==> len(b) >= 8 && result1 == be7(b, 1) && result0 == b[8:]
+//@   ensures acc_p8: result2 == nil && b[0] == 255 ==> len(b) >= 9 && result1 == be8(b, 1) && result0 == b[9:]
 
 //@ func DecodeComparableVarint
 //@   prop C19
@@ -176,20 +177,57 @@ package codec
 //@   ensures empty: len(b) == 0 ==> result2 != nil
 //@   ensures short: len(b) > 0 && b[0] > 247 && len(b) < 1 + (mathint(b[0]) - 247) ==> result2 != nil
 //@   ensures shortneg: len(b) > 0 && b[0] < 8 && len(b) < 1 + (8 - mathint(b[0])) ==> result2 != nil
-//@   ensures accepted: result2 == nil ==> len(b) > 0 && (b[0] >= 8 && b[0] <= 247 ==> mathint(result1) == mathint(b[0]) - 8 && result0 == b[1:]) &&
-//@       (b[0] == 248 ==> len(b) >= 2 && mathint(result1) == mathint(be1(b, 1)) && result0 == b[2:]) &&
-//@       (b[0] == 249 ==> len(b) >= 3 && mathint(result1) == mathint(be2(b, 1)) && result0 == b[3:]) &&
-//@       (b[0] == 250 ==> len(b) >= 4 && mathint(result1) == mathint(be3(b, 1)) && result0 == b[4:]) &&
-//@       (b[0] == 251 ==> len(b) >= 5 && mathint(result1) == mathint(be4(b, 1)) && result0 == b[5:]) &&
-//@       (b[0] == 252 ==> len(b) >= 6 && mathint(result1) == mathint(be5(b, 1)) && result0 == b[6:]) &&
-//@       (b[0] == 253 ==> len(b) >= 7 && mathint(result1) == mathint(be6(b, 1)) && result0 == b[7:]) &&
-//@       (b[0] == 254 ==> len(b) >= 8 && mathint(result1) == mathint(be7(b, 1)) && result0 == b[8:]) &&
-//@       (b[0] == 255 ==> len(b) >= 9 && mathint(result1) == mathint(be8(b, 1)) && result0 == b[9:]) &&
-//@       (b[0] == 7 ==> len(b) >= 2 && mathint(result1) == mathint(be1(b, 1)) - 256 && result0 == b[2:]) &&
-//@       (b[0] == 6 ==> len(b) >= 3 && mathint(result1) == mathint(be2(b, 1)) - 65536 && result0 == b[3:]) &&
-//@       (b[0] == 5 ==> len(b) >= 4 && mathint(result1) == mathint(be3(b, 1)) - 16777216 && result0 == b[4:]) &&
-//@       (b[0] == 4 ==> len(b) >= 5 && mathint(result1) == mathint(be4(b, 1)) - 4294967296 && result0 == b[5:]) &&
-//@       (b[0] == 3 ==> len(b) >= 6 && mathint(result1) == mathint(be5(b, 1)) - 1099511627776 && result0 == b[6:]) &&
-//@       (b[0] == 2 ==> len(b) >= 7 && mathint(result1) == mathint(be6(b, 1)) - 281474976710656 && result0 == b[7:]) &&
-//@       (b[0] == 1 ==> len(b) >= 8 && mathint(result1) == mathint(be7(b, 1)) - 72057594037927936 && result0 == b[8:]) &&
-//@       (b[0] == 0 ==> len(b) >= 9 && mathint(result1) == mathint(be8(b, 1)) - 18446744073709551616 && result0 == b[9:])
+//@   ensures acc_tag: result2 == nil ==> len(b) > 0
+//@   ensures acc_1: result2 == nil && b[0] >= 8 && b[0] <= 247 ==> mathint(result1) == mathint(b[0]) - 8 && result0 == b[1:]
+//@   ensures acc_p1: result2 == nil && b[0] == 248 ==> len(b) >= 2 && mathint(result1) == mathint(be1(b, 1)) && result0 == b[2:]
+//@   ensures acc_p2: result2 == nil && b[0] == 249 ==> len(b) >= 3 && mathint(result1) == mathint(be2(b, 1)) && result0 == b[3:]
+//@   ensures acc_p3: result2 == nil && b[0] == 250 ==> len(b) >= 4 && mathint(result1) == mathint(be3(b, 1)) && result0 == b[4:]
+//@   ensures acc_p4: result2 == nil && b[0] == 251 ==> len(b) >= 5 && mathint(result1) == mathint(be4(b, 1)) && result0 == b[5:]
+//@   ensures acc_p5: result2 == nil && b[0] == 252 ==> len(b) >= 6 && mathint(result1) == mathint(be5(b, 1)) && result0 == b[6:]
+//@   ensures acc_p6: result2 == nil && b[0] == 253 ==> len(b) >= 7 && mathint(result1) == mathint(be6(b, 1)) && result0 == b[7:]
+//@   ensures acc_p7: result2 == nil && b[0] == 254 ==> len(b) >= 8 && mathint(result1) == mathint(be7(b, 1)) && result0 == b[8:]
+//@   ensures acc_p8: result2 == nil && b[0] == 255 ==> len(b) >= 9 && mathint(result1) == mathint(be8(b, 1)) && result0 == b[9:]
+//@   ensures acc_n1: result2 == nil && b[0] == 7 ==> len(b) >= 2 && mathint(result1) == mathint(be1(b, 1)) - 256 && result0 == b[2:]
+//@   ensures acc_n2: result2 == nil && b[0] == 6 ==> len(b) >= 3 && mathint(result1) == mathint(be2(b, 1)) - 65536 && result0 == b[3:]
+//@   ensures acc_n3: result2 == nil && b[0] == 5 ==> len(b) >= 4 && mathint(result1) == mathint(be3(b, 1)) - 16777216 && result0 == b[4:]
+//@   ensures acc_n4: result2 == nil && b[0] == 4 ==> len(b) >= 5 && mathint(result1) == mathint(be4(b, 1)) - 4294967296 && result0 == b[5:]
+//@   ensures acc_n5: result2 == nil && b[0] == 3 ==> len(b) >= 6 && mathint(result1) == mathint(be5(b, 1)) - 1099511627776 && result0 == b[6:]
+//@   ensures acc_n6: result2 == nil && b[0] == 2 ==> len(b) >= 7 && mathint(result1) == mathint(be6(b, 1)) - 281474976710656 && result0 == b[7:]
+//@   ensures acc_n7: result2 == nil && b[0] == 1 ==> len(b) >= 8 && mathint(result1) == mathint(be7(b, 1)) - 72057594037927936 && result0 == b[8:]
+//@   ensures acc_n8: result2 == nil && b[0] == 0 ==> len(b) >= 9 && mathint(result1) == mathint(be8(b, 1)) - 18446744073709551616 && result0 == b[9:]
+// ---- byte strings -------------------------------------------------------------------------------
+
+// Format (comment of EncodeBytes): groups of 8 data bytes padded with zeros, each followed by a marker byte
+// 0xFF - (number of padding zeros); a full group has marker 0xFF and is followed by another group.
+//@ spec func encLen(n int) int { return 9*(n/8 + 1) }
+// encByteAt(d, p): the p-th byte of the encoding of d (p/9 is the group, p%9 == 8 the marker position).
+//@ spec func encByteAt(d []byte, p int) int {
+//@   return ite(p%9 == 8, ite(8*(p/9)+8 <= len(d), 255, 255 - (8 - (len(d) - 8*(p/9)))), ite(8*(p/9)+p%9 < len(d), mathint(d[8*(p/9)+p%9]), 0)) }
+// isEncB(r, at, d): r[at : at+encLen(len(d))] is the encoding of d
+//@ spec func isEncB(r []byte, at int, d []byte) bool {
+//@   return forall j int :: at <= j && j < at + encLen(len(d)) ==> mathint(r[j]) == encByteAt(d, j - at) }
+
+//@ func reallocBytes
+//@   prop C19
+//@   safety
+//@   requires n >= 0
+//@   ensures len: len(result) == len(b)
+//@   ensures cap: cap(result) >= len(b) + n
+//@   ensures prefix: keeps(result, b)
+
+//@ func EncodeBytes
+//@   prop C19
+//@   safety
+//@   requires pads: len(pads) == 8 && forall i int :: 0 <= i && i < 8 ==> pads[i] == 0
+//@   loop 1 invariant step: idx % 8 == 0 && 0 <= idx && idx <= 8*(len(data)/8) + 8
+//@   loop 1 invariant len: len(result) == len(b) + 9*(idx/8)
+//@   loop 1 invariant prefix: keeps(result, b)
+//@   loop 1 invariant image: forall j int :: len(b) <= j && j < len(b) + 9*(idx/8) ==> mathint(result[j]) == encByteAt(data, j - len(b))
+//@   at def(marker) assert grouplen: len(result) == len(b) + 9*(idx/8) + 8
+//@   at def(marker) assert oldpart: forall j int :: 0 <= j && j < len(b) + 9*(idx/8) ==> result[j] == prev(result[j])
+//@   at def(marker) assert gdata: forall j int :: len(b)+9*(idx/8) <= j && j < len(b)+9*(idx/8)+8 && idx+(j-(len(b)+9*(idx/8))) < len(data) ==> result[j] == data[idx+(j-(len(b)+9*(idx/8)))]
+//@   at def(marker) assert gpad: forall j int :: len(b)+9*(idx/8) <= j && j < len(b)+9*(idx/8)+8 && idx+(j-(len(b)+9*(idx/8))) >= len(data) ==> result[j] == 0
+//@   at def(marker) assert pad: padCount == ite(len(data) - idx >= 8, 0, 8 - (len(data) - idx))
+//@   ensures len: len(result) == len(b) + encLen(len(data))
+//@   ensures prefix: keeps(result, b)
+//@   ensures image: isEncB(result, len(b), data)
